@@ -16,6 +16,12 @@ Alphabet   = two tiers, see DESIGN "C03":
    A_full(ndim) every index tuple of length <= ndim over {0, -1, :, 1:, ::2, ::-1, [0,2], ...} with
                 <= 1 list, <= 1 Ellipsis, leaving >= 1 axis; applied in every state of depth <=
                 D_full[ndim of the state]; states reached only through A_full are leaves.
+   A_wide(ndim) widened argument domains of the paired operations, applied like A_full (every state up to a
+                stated depth, successors are leaves): pad(output_shape) and fourier_resample(out_shape) with
+                components independently smaller by 1 / equal / larger by 1 (pad: or 2) than the axis (every
+                combination for ndim <= 2; for ndim >= 3 every vector with exactly one smaller and one larger
+                component plus all-equal, pad also all-smaller); no-op, mixed per-axis, reversed-order and
+                negative `axes` forms of crop / bin / fourier_resample.
 Checks     every state: one origin/sampling/units entry per axis, class vs dimensionality;
            every transition: result == reference model (incl. calibration arithmetic), source
            bit-identical after every copying operation and not aliased by the result, in-place
@@ -27,7 +33,8 @@ What the model demands, and why (property text / docstring):
              in source order; origin entries of the kept axes unchanged; sampling x slice step;
              class = type(source) when ndim is unchanged, else the class registered for the new ndim
              (Dataset when none).                                   [property statement]
-  pad        constant zero padding; "Metadata (origin, sampling) is not modified" [docstring];
+  pad        constant zero padding; "Metadata (origin, sampling) is not modified" [docstring]; a pad never
+             removes data: an axis already at least as long as the requested output length stays as it is;
              output_shape with an odd difference: either side may get the extra element
              ("symmetric padding" does not say) - both candidates accepted, variants must agree.
   crop       a[min:max] on the selected axes ("Min and max for cropping each axis"); neither the
@@ -80,7 +87,9 @@ CLAIM = (
     "the docstrings (NumPy-indexed data, kept-axis calibration, sampling x step, bin and resample calibration arithmetic), the "
     "source of every copying operation is bit-identical and not aliased, the in-place variant equals the copying variant "
     "byte for byte, rejected index expressions are rejected like NumPy and change nothing, and in every state origin, sampling "
-    "and units have one entry per axis and the class matches the dimensionality. The thorough tier adds all histories of "
+    "and units have one entry per axis and the class matches the dimensionality. A widened argument tier (output shapes with "
+    "independently smaller / equal / larger components, no-op, mixed, reversed-order and negative axes forms) is applied in the "
+    "shallow states. The thorough tier adds all histories of "
     "length 8 with at most 2 deviations from a slice-pad-crop-bin cycle. Model checking is the right level because the property "
     "quantifies over histories of a small operation alphabet and names the depth."
 )
@@ -90,12 +99,13 @@ NOTE = (
     "axis lengths 1..4). Not demanded because neither the property nor the docstrings fix it: the origin after crop, which side "
     "gets the odd element of pad(output_shape), rounding of n*factor at .5, result dtypes of bin / resample. Indexing may return "
     "views (NumPy semantics); for index tuples where NumPy moves the list axis to the front the literal 'kept axes in order' "
-    "calibration is demanded. Negative axes arguments and empty arrays as operands are outside the alphabet."
+    "calibration is demanded. pad(output_shape) with a component smaller than the axis leaves that axis as it is (a pad never "
+    "removes data). Negative axes count from the end. Empty arrays as operands are outside the alphabet."
 )
 RULE = (
     "BFS with canonical-state dedup from every initial dataset, sharded by (initial, first event); the inner alphabet A_in(ndim) "
-    "is applied in every state below the depth bound, the full index alphabet A_full(ndim) in every state up to the stated depth; "
-    "both tiers are enumerated completely. Every executed variant (copying, in-place) is one transition compared with the "
+    "is applied in every state below the depth bound, the full index alphabet A_full(ndim) and the widened argument tier A_wide(ndim) in every state up to the stated depths; "
+    "all tiers are enumerated completely. Every executed variant (copying, in-place) is one transition compared with the "
     "reference model. A transition is non-trivial when it discovers a canonical state not seen before; distinct_nontrivial is the "
     "number of distinct canonical states beyond the initial ones."
 )
@@ -293,7 +303,50 @@ PAIRED = (
 
 
 def enabled(ev, n):
-    return not (ev == ("crop", "ax02") and n < 3)
+    if ev == ("crop", "ax02"):
+        return n >= 3
+    if ev[1] in ("rev_axes", "mixed_factors"):
+        return n >= 2
+    if ev[1].startswith(("out:", "shape:")):
+        return len(ev[1].split(":")[1]) == n
+    return True
+
+
+def _vectors(n, smaller, equal, larger, all_smaller):
+    """Per-axis choice vectors: every combination for ndim <= 2; for ndim >= 3 all vectors with exactly one
+    smaller and one larger component (the others equal) plus all-equal (and all-smaller when asked)."""
+    if n <= 2:
+        return ["".join(t) for t in itertools.product([smaller, equal] + list(larger), repeat=n)]
+    out = []
+    for i in range(n):
+        for j in range(n):
+            if i != j:
+                for g in larger:
+                    v = [equal] * n
+                    v[i], v[j] = smaller, g
+                    out.append("".join(v))
+    out.append(equal * n)
+    if all_smaller:
+        out.append(smaller * n)
+    return out
+
+
+_WIDE = {}
+
+
+def wide_alphabet(n):
+    """A_wide(ndim): widened argument domains of the paired operations (applied like A_full: in every state up to a
+    stated depth, successors are leaves). pad(output_shape) / fourier_resample(out_shape) with components that are
+    independently smaller by 1 (m), equal (e), larger by 1 (p) or 2 (q) than the axis; no-op, mixed, reversed-order
+    and negative `axes` forms of crop / bin / fourier_resample."""
+    if n not in _WIDE:
+        ev = [("pad", "out:" + v) for v in _vectors(n, "m", "e", ("p", "q"), True)]
+        ev += [("fr", "shape:" + v) for v in _vectors(n, "m", "e", ("p",), False) if set(v) not in ({"m"}, {"p"})]
+        ev += [("crop", x) for x in ("noop", "mixed", "rev_axes", "neg_axis")]
+        ev += [("bin", x) for x in ("ones", "mixed123", "rev_axes", "neg_axis")]
+        ev += [("fr", x) for x in ("rev_axes", "neg_axis", "mixed_factors")]
+        _WIDE[n] = [e for e in ev if enabled(e, n)]
+    return _WIDE[n]
 
 
 def nonindex_alphabet(n):
@@ -335,6 +388,10 @@ def concrete_args(ev, shape):
     """Keyword arguments of the public call for a symbolic paired event in a state of this shape."""
     n = len(shape)
     kind, name = ev[0], ev[1]
+    if name.startswith(("out:", "shape:")):
+        step = {"m": -1, "e": 0, "p": 1, "q": 2}
+        target = tuple(max(L + step[c], 1) for L, c in zip(shape, name.split(":")[1]))
+        return {"output_shape": target} if kind == "pad" else {"out_shape": target}
     if kind == "pad":
         if name == "w1":
             return {"pad_width": 1}
@@ -350,6 +407,14 @@ def concrete_args(ev, shape):
             return {"crop_widths": ((1, shape[0]),), "axes": (0,)}
         if name == "last_last":
             return {"crop_widths": (last(shape[-1]),), "axes": (n - 1,)}
+        if name == "noop":
+            return {"crop_widths": tuple((0, L) for L in shape)}
+        if name == "mixed":
+            return {"crop_widths": tuple((first, last, lambda L: (0, L))[i % 3](L) for i, L in enumerate(shape))}
+        if name == "rev_axes":
+            return {"crop_widths": (last(shape[-1]), first(shape[0])), "axes": (n - 1, 0)}
+        if name == "neg_axis":
+            return {"crop_widths": (first(shape[-1]),), "axes": (-1,)}
         return {"crop_widths": (last(shape[0]), first(shape[2])), "axes": (0, 2)}
     if kind == "bin":
         if name == "2":
@@ -360,6 +425,14 @@ def concrete_args(ev, shape):
             return {"bin_factors": 2, "axes": n - 1}
         if name == "2_mean":
             return {"bin_factors": 2, "reducer": "mean"}
+        if name == "ones":
+            return {"bin_factors": 1}
+        if name == "mixed123":
+            return {"bin_factors": tuple((1, 2, 3)[i % 3] for i in range(n)), "reducer": "mean"}
+        if name == "rev_axes":
+            return {"bin_factors": (3, 2), "axes": (n - 1, 0)}
+        if name == "neg_axis":
+            return {"bin_factors": 2, "axes": (-1,)}
         return {"bin_factors": (3,), "axes": (n - 1,), "reducer": "mean"}
     if kind == "fr":
         if name == "plus1":
@@ -368,6 +441,12 @@ def concrete_args(ev, shape):
             return {"out_shape": tuple(max(s - 1, 1) for s in shape)}
         if name == "x2_ax0":
             return {"factors": 2, "axes": 0}
+        if name == "rev_axes":
+            return {"out_shape": (shape[-1] + 1, max(shape[0] - 1, 1)), "axes": (n - 1, 0)}
+        if name == "neg_axis":
+            return {"factors": 2, "axes": (-1,)}
+        if name == "mixed_factors":
+            return {"factors": (2.0, 0.5), "axes": (0, n - 1)}
         return {"factors": (0.5,), "axes": (n - 1,)}
     raise ValueError(ev)
 
@@ -398,9 +477,8 @@ def snapshot(d):
 def _axes_tuple(axes, n):
     if axes is None:
         return tuple(range(n))
-    if isinstance(axes, int):
-        return (axes,)
-    return tuple(axes)
+    axes = (axes,) if isinstance(axes, int) else tuple(axes)
+    return tuple(a + n if a < 0 else a for a in axes)  # negative axes count from the end (NumPy convention)
 
 
 def model_set(m, field, form):
@@ -430,7 +508,8 @@ def model_pad(m, pad_width=None, output_shape=None):
         else:
             before, after = [p[0] for p in pad_width], [p[1] for p in pad_width]
         return [M(_place(m.a, before, after), m.o, m.s, m.u, m.cls)]
-    delta = [o - L for o, L in zip(output_shape, m.a.shape)]
+    # "pad to a desired output shape": a pad never removes data, an axis already at least as long as requested stays
+    delta = [max(0, o - L) for o, L in zip(output_shape, m.a.shape)]
     lo, hi = [d // 2 for d in delta], [d - d // 2 for d in delta]
     cands = [M(_place(m.a, lo, hi), m.o, m.s, m.u, m.cls, "extra element after")]
     if lo != hi:
@@ -925,8 +1004,8 @@ def tier_config(tier):
     A_full(ndim) is applied in every state of depth <= dfull[ndim] (and below maxdepth)."""
     if tier == "quick":
         # depth 3 for ndim 3 costs another 1.0M transitions (170 CPU-s): measured not to fit the 60 s budget on the shared machine
-        return {"maxdepth": {1: 3, 2: 3, 3: 2, 4: 2, 5: 2}, "dfull": {1: 1, 2: 1, 3: 1, 4: 0, 5: 0}}
-    return {"maxdepth": {1: 3, 2: 3, 3: 3, 4: 3, 5: 3}, "dfull": {1: 2, 2: 2, 3: 2, 4: 1, 5: 0}}
+        return {"maxdepth": {1: 3, 2: 3, 3: 2, 4: 2, 5: 2}, "dfull": {1: 1, 2: 1, 3: 1, 4: 0, 5: 0}, "dwide": {1: 1, 2: 1, 3: 1, 4: 0, 5: 0}}
+    return {"maxdepth": {1: 3, 2: 3, 3: 3, 4: 3, 5: 3}, "dfull": {1: 2, 2: 2, 3: 2, 4: 1, 5: 0}, "dwide": {1: 2, 2: 2, 3: 1, 4: 1, 5: 1}}
 
 
 FULL_CHUNK = 1500
@@ -1008,6 +1087,8 @@ def bfs_below(sh, start, start_fp, hist, depth, cfg, st):
             expand_state(sh, live, fp, h, depth, inner_alphabet(nd), nxt, st)
             if depth <= cfg["dfull"][nd]:
                 expand_state(sh, live, fp, h, depth, full_only(nd), None, st)
+            if depth <= cfg["dwide"][nd]:
+                expand_state(sh, live, fp, h, depth, wide_alphabet(nd), None, st)
         frontier = nxt or []
         depth += 1
 
@@ -1028,6 +1109,9 @@ def shard(item, seed=0, cfg=None, scratch=None):
             lo, hi = item[2], item[3]
             expand_state(sh, live0, fp0, [], 0, full_only(nd)[lo:hi], None, st)
             sh.save(scratch, f"full_{init_i}_{lo}")
+        elif kind == "wide":
+            expand_state(sh, live0, fp0, [], 0, wide_alphabet(nd), None, st)
+            sh.save(scratch, f"wide_{init_i}")
         elif kind == "bfs":
             ev = inner_alphabet(nd)[item[2]]
             fails = []
@@ -1202,7 +1286,8 @@ def run(ctx):
         "crop: the origin may stay or move by min*sampling (neither property nor docstring fixes it); pad(output_shape): either side may take the odd element; fourier_resample(factors): floor or ceil of n*factor",
         "indexing may return views of the source array (NumPy semantics); aliasing of the array is only forbidden for copy/pad/crop/bin/fourier_resample",
         "for index tuples where NumPy moves the list axis to the front (integer and list separated by a slice) the literal 'kept axes' calibration in order' is demanded although the data axes are then permuted (counted as index_list_axis_moved_by_numpy)",
-        "states holding an empty array are compared but not expanded; negative `axes` arguments and crop widths with max == 0 are outside the alphabet",
+        "states holding an empty array are compared but not expanded; crop widths with max == 0 are outside the alphabet; negative axes count from the end",
+        "pad(output_shape) with a component smaller than the axis: that axis stays as it is (a pad never removes data)",
         "result dtypes of bin / fourier_resample are not demanded (only that both variants agree); values are compared in double precision",
     )
 
@@ -1249,17 +1334,18 @@ def run(ctx):
             items += [("bfs", i, A.index(h[0])) for _, _, h in succs]
         root_digests[nd] |= sh.seen
         sh.flush_outcomes()
+        items.append(("wide", i))
         F = len(full_only(nd))
         for lo in range(0, F, FULL_CHUNK):
             items.append(("full", i, lo, min(F, lo + FULL_CHUNK)))
     parent_dev = (DEV.single, DEV.double, DEV.cal)
     ctx.tally.merge(parent)
     sizes = {n: {"A_in": len(inner_alphabet(n)), "A_in_executions_per_state": len(inner_alphabet(n)) + sum(1 for e in inner_alphabet(n) if e[0] in METHOD),
-                 "R": len(reduced_index_alphabet(n)), "A_full": len(full_index_alphabet(n))} for n in range(1, 6)}
+                 "R": len(reduced_index_alphabet(n)), "A_full": len(full_index_alphabet(n)), "A_wide": len(wide_alphabet(n))} for n in range(1, 6)}
     ctx.say(f"{len(INITIALS)} initial datasets; alphabets per ndim: " + ", ".join(f"{n}: |A_in|={v['A_in']} |A_full|={v['A_full']}" for n, v in sizes.items()))
     ctx.say(f"{len(items)} shards (distinct depth-1 successors + root chunks of A_full), bounds {json.dumps(cfg)}")
     # heavy shards first (scheduling only; the result does not depend on the order)
-    items.sort(key=lambda it: (it[0] != "bfs", -cfg["maxdepth"][len(INITIALS[it[1]][1])], -len(INITIALS[it[1]][1]), it[1], it[2]))
+    items.sort(key=lambda it: (it[0] != "bfs", -cfg["maxdepth"][len(INITIALS[it[1]][1])], -len(INITIALS[it[1]][1]), it[1], it[2] if len(it) > 2 else -1))
     # preliminary counts (depth 1 only), overwritten below; keeps partial evidence valid if the ceiling is hit
     n1 = sum(len(v) for v in root_digests.values())
     ctx.coverage.update(states=n1, transitions=parent.n, traces_validated_against_impl=parent.n, distinct_nontrivial=n1 - len(INITIALS), evaluations=parent.n)
@@ -1336,6 +1422,7 @@ def _explore(ctx, cfg, items, parent, parent_dev, root_digests, sizes, side):
         per_ndim[str(n)] = dict(sizes[n], states=per_nd_states[n], transitions=int(extra.get(f"tr_nd{n}", 0)),
                                 traces_validated_against_impl=int(extra.get(f"tr_nd{n}", 0)), max_depth=max(depths) if depths else 0,
                                 depth_bound_for_initials_of_this_ndim=cfg["maxdepth"][n], A_full_applied_in_states_up_to_depth=cfg["dfull"][n],
+                                A_wide_applied_in_states_up_to_depth=cfg["dwide"][n],
                                 initials=sum(1 for x in INITIALS if len(x[1]) == n))
     ctx.coverage.update(
         states=states,
@@ -1347,7 +1434,7 @@ def _explore(ctx, cfg, items, parent, parent_dev, root_digests, sizes, side):
         max_depth=max(v["max_depth"] for v in per_ndim.values()),
         initial_states=len(INITIALS),
         per_ndim=per_ndim,
-        alphabet={"per_axis_index_forms": FORMS, "non_indexing": [list(e) for e in nonindex_alphabet(5)],
+        alphabet={"per_axis_index_forms": FORMS, "non_indexing": [list(e) for e in nonindex_alphabet(5)], "wide_arguments_ndim3": [list(e) for e in wide_alphabet(3)],
                   "reduced_index_set_ndim3": [call_text(e, ()) for e in reduced_index_alphabet(3)]},
         bounds=cfg,
         worst_deviation={"single_precision_data": worst[0], "double_precision_data": worst[1], "calibration": worst[2],
